@@ -41,7 +41,10 @@ def headClose : HeadS :=
 
 /-- two chunks: `5\r\nhello\r\n` and `06;x=1\r\n world\r\n` -/
 def chunks : List ChunkS := [⟨str "hello", str "5", []⟩, ⟨str " world", str "06", str ";x=1"⟩]
-def last : LastS := ⟨str "0", []⟩
+def last : LastS := ⟨str "0", [], []⟩
+/-- a last-chunk with an extension and a trailer section of two field lines:
+    `00;q\r\nExpires: never\r\nX-Sum: 1\r\n\r\n` -/
+def lastT : LastS := ⟨str "00", str ";q", [str "Expires: never", str "X-Sum: 1"]⟩
 def body : Bytes := str "hello world"
 
 /-- a segmentation: 7 bytes, 30 bytes, 1 byte, the rest (for `w` longer than 38 bytes) -/
